@@ -57,10 +57,18 @@ def sh(cmd, cwd=None, env=None, timeout=3600):
     e["CARGO_NET_OFFLINE"] = "true"
     if env:
         e.update(env)
+    # own process group, so that a mutant that makes the test suite itself spin is killed with all its children
+    p = subprocess.Popen(cmd, cwd=cwd, env=e, shell=True, stdout=subprocess.PIPE, stderr=subprocess.STDOUT, text=True, start_new_session=True)
     try:
-        p = subprocess.run(cmd, cwd=cwd, env=e, shell=True, capture_output=True, text=True, timeout=timeout)
-        return p.returncode, p.stdout + p.stderr
+        out, _ = p.communicate(timeout=timeout)
+        return p.returncode, out
     except subprocess.TimeoutExpired:
+        import signal
+        try:
+            os.killpg(p.pid, signal.SIGKILL)
+        except ProcessLookupError:
+            pass
+        p.communicate()
         return 124, "timeout"
 
 
@@ -166,7 +174,7 @@ def main():
         test_cmd = "cargo test --offline --lib 2>&1 | grep -E '^test result|error(\\[|:)' | head -3"
         if f.endswith("scope.rs"):
             test_cmd = "cargo test --offline --example multi-thread 2>&1 | grep -E '^test result|error(\\[|:)' | head -3"
-        rc, out = sh(test_cmd, cwd=f"{BASE}/repo", env=env, timeout=900)
+        rc, out = sh(test_cmd, cwd=f"{BASE}/repo", env=env, timeout=300)
         ok = ("test result: ok. 1229 passed" in out) or (f.endswith("scope.rs") and "test result: ok. 2 passed" in out)
         label = f"{f}:{n + 1} [{desc}] `{old.strip()[:70]}` -> `{new.strip()[:70]}`"
         if not ok:
